@@ -280,6 +280,24 @@ Definition shrake_rupley_post (c : call) (p : pre) : result :=
        | PBufs bufs => Ok (map (fun b => Some (accumulate mapping b (init_row ng mapping (c_sel c)))) bufs)
        end.
 
+(* ---------------------------------------------------------------- atom order: index order vs Topology.atoms order
+   sasa.py takes the element symbols (radii) and the residue indices by iterating traj.topology.atoms, which walks
+   chains -> residues -> atoms.  xyz is in atom.index order.  The two orders coincide exactly when every residue's atoms
+   are contiguous in index order (true for every topology read from a file); for a topology built with interleaved
+   add_atom / insert_atom calls they differ and atom j is given the symbol and residue of the j-th atom of the walk.
+   [iter] lists, in walk order, the atom indices.  The call record itself always holds index-order data (the
+   specification); the as-found code computes with [as_found_view iter c]. *)
+Definition reorder {X : Type} (d : X) (iter : list nat) (l : list X) : list X := map (fun k => nth k l d) iter.
+
+Definition as_found_view (iter : list nat) (c : call) : call :=
+  {| c_K := c_K c; c_M := c_M c; c_tiny2 := c_tiny2 c; c_pts := c_pts c; c_tbl := c_tbl c; c_change := c_change c;
+     c_probe := c_probe c; c_elems := reorder EmptyString iter (c_elems c); c_resid := reorder 0%nat iter (c_resid c);
+     c_nres := c_nres c; c_mode := c_mode c; c_sel := c_sel c; c_frames := c_frames c |}.
+
+(* the walk order of a topology whose atom j belongs to residue resid[j]: stable sort of the indices by residue *)
+Definition walk_order (nres : nat) (resid : list nat) : list nat :=
+  flat_map (fun r => filter (fun j => Nat.eqb (nth j resid 0%nat) r) (seq 0 (length resid))) (seq 0 nres).
+
 (* ---------------------------------------------------------------- comparison used by the correspondence
    The implementation's float32 areas are turned, by the harness, into an integer interval [lo, hi] in the
    unit K*U^2 (K = 1) per frame and output column, or None where the implementation returned exactly -1. *)
